@@ -350,6 +350,32 @@ class BytesProfile:
                         res.viol.append(Violation(("C10", "C08"), "in-use-differs-when-lines-share-a-read",
                                                   "the same history reports %s requests in use when delivered a line per read and %s when "
                                                   "several lines arrive in one read" % ([int(x) for x in ua][:12], [int(x) for x in ub][:12])))
+                if not res.viol and rnd.random() < 0.3 and len(data) < 200000:
+                    # F: the stream padded (with lines about an id nobody uses) to a whole number of 4096-byte reads,
+                    # delivered in reads of exactly that size, the last of which is followed by end of input at once
+                    pad = (-len(b"".join(l + b"\n" for l in S))) % 4096
+                    if pad < 9:
+                        pad += 4096
+                    fill = []
+                    while pad > 0:
+                        L = min(pad, 300)
+                        if 0 < pad - L < 9:
+                            L -= 9
+                        fill.append(b"7777 n " + b"x" * (L - 8))
+                        pad -= L
+                    S2 = S + fill
+                    dataF = b"".join(l + b"\n" for l in S2)
+                    of1, exf1, hf1, df1 = raw_run(cfg, [l + b"\n" for l in S2], tag + "f")
+                    of2, exf2, hf2, df2 = raw_run(cfg, [dataF[i:i + 4096] for i in range(0, len(dataF), 4096)], tag + "g")
+                    hs += [hf1, hf2]
+                    v = clean_exit_viol(exf1, df1, "run F (padded, line per read)") or clean_exit_viol(exf2, df2, "run F (reads of exactly 4096 bytes)")
+                    if v:
+                        res.viol.append(v)
+                    elif b"".join(of1) != b"".join(of2):
+                        res.viol.append(Violation("C08", "segmentation-changes-output",
+                                                  "same bytes in %d reads of exactly 4096 bytes, then end of input: output differs from a line per "
+                                                  "read: %s" % (len(dataF) // 4096, first_diff(b"".join(of1), b"".join(of2)))))
+                    res.extra["runs_in_reads_of_exactly_4096_bytes"] = 1
                 if not res.viol and len(data) < 400000:
                     # E: the same bytes are already waiting on the channel when the daemon enters its event loop
                     # (the server queued them while the daemon was starting).  Where the start-up lines end up among
